@@ -30,7 +30,8 @@ PatPool == << <<98,97,114>>, <<97>>, <<94,97>>, <<97,36>>, <<92,60,98,97,114>>, 
               <<97,92,92>>, <<97,47>> >>          \* a pattern ending in an escaped backslash; one holding the delimiter of /
 CharPool == <<97, 98, 32, 40, 41, 46, 120, 233, 111, 119, 123, 125, 9>>
 KeyPool == << <<120>>, <<233,32,97>>, <<97,98,8,99>>, <<97,32,98,98,23,99>>, <<120,121,21,122>>, <<97,10,98>>, <<10>>, <<>>,
-              <<20,120>>, <<97,10,4,98>>, <<22,9,120>>, <<97,22,0,98>>, <<119,49,32,119,50>>, <<32,32,97,10,98,10,99>>, <<28450>>, <<40,41>>, <<97,10,32,98,10,99>> >>
+              <<20,120>>, <<97,10,4,98>>, <<22,9,120>>, <<97,22,0,98>>, <<119,49,32,119,50>>, <<32,32,97,10,98,10,99>>, <<28450>>, <<40,41>>, <<97,10,32,98,10,99>>,
+              <<32,120,4,121>>, <<9,88,4>>, <<32,4,4,122>> >>       \* a typed leading blank, then ^D (a no-op unless the line so far is empty)
 RegPool == <<0, 0, 0, 97, 98, 65>>
 Counts == <<0, 0, 0, 0, 2, 3, 9, 1>>
 
@@ -69,7 +70,8 @@ GenCmd(vs, sd, t) ==
                                           ELSE IF m.k \in {"/", "?"} /\ c1 > 3 THEN 0 ELSE c1, reg |-> 0]
        ELSE LET e == Pick(sd, t, 7, 100) IN
             IF e < 36 THEN
-                LET op == Elem(sd, t, 8, <<"d", "d", "c", "y", "y", "<", ">", "g~", "gu", "gU", "d", "c">>)
+                LET op0 == Elem(sd, t, 8, <<"d", "d", "c", "y", "y", "<", ">", "g~", "gu", "gU", "d", "c", "!">>)
+                    op == IF op0 = "!" /\ NR(vs) = 0 THEN "d" ELSE op0
                     dbl == Pick(sd, t, 9, 5) = 0
                     m0 == GenMotion(vs, sd, t, 10, Profile = "search" /\ Pick(sd, t, 31, 3) = 0)
                     m == IF dbl THEN Mot("dbl") ELSE IF m0.k = "N%" THEN Mot("w") ELSE m0
@@ -114,7 +116,7 @@ Script(vs, sd, t, n) ==
     IF t > n THEN <<>>
     ELSE LET c0 == IF t = 1 THEN [k |-> "ins", ik |-> "i", keys |-> FirstKeys(sd), reg |-> 0, c1 |-> 0] ELSE GenCmd(vs, sd, t)
              (* when the target of a change cannot be reached nothing is read after it: the text is not typed *)
-             c == IF c0.k = "op" /\ c0.op = "c" /\ ~ViCmd(vs, c0).ok THEN [c0 EXCEPT !.op = "d", !.keys = <<>>] ELSE c0
+             c == IF c0.k = "op" /\ c0.op \in {"c", "!"} /\ ~ViCmd(vs, c0).ok THEN [c0 EXCEPT !.op = "d", !.keys = <<>>] ELSE c0
              v1 == ViCmd(vs, c)
              (* the same command under the operational transcriptions: another state = a replay of a known finding; the script ends *)
              v1c == ViCmd([vs EXCEPT !.ed.code = TRUE], c)
@@ -188,7 +190,7 @@ RScript(vs, sd, t, n, pending, last, macro, atseen) ==
                        <<[c |-> open, typed |-> TRUE, tkeys |-> Keys(open)], [c |-> MotC("^", 0), typed |-> TRUE, tkeys |-> Keys(MotC("^", 0))],
                          [c |-> yank, typed |-> TRUE, tkeys |-> Keys(yank)], [c |-> del, typed |-> TRUE, tkeys |-> Keys(del)]>>,
                        last, m, atseen)
-         ELSE RScript(vs, sd, t + 1, n, <<[c |-> g, typed |-> TRUE, tkeys |-> Keys(IF g.k = "op" /\ g.op = "c" /\ ~ViCmd(vs, g).ok
+         ELSE RScript(vs, sd, t + 1, n, <<[c |-> g, typed |-> TRUE, tkeys |-> Keys(IF g.k = "op" /\ g.op \in {"c", "!"} /\ ~ViCmd(vs, g).ok
                                                                                       THEN [g EXCEPT !.op = "d", !.keys = <<>>] ELSE g)]>>,
                       last, macro, atseen)
 
